@@ -1,4 +1,9 @@
 // unity TU: only #includes repository sources (OVMB reader/writer/codec group)
+#include <OpenVolumeMesh/Core/Handles.cc>
+#include <OpenVolumeMesh/Core/BaseEntities.cc>
+#include <OpenVolumeMesh/Core/ResourceManager.cc>
+#include <OpenVolumeMesh/Core/TopologyKernel.cc>
+#include <OpenVolumeMesh/Core/Iterators.cc>
 #include <OpenVolumeMesh/IO/detail/Decoder.cc>
 #include <OpenVolumeMesh/IO/detail/Encoder.cc>
 #include <OpenVolumeMesh/IO/detail/WriteBuffer.cc>
